@@ -16,7 +16,7 @@ for id in "$@"; do
   VERIF_REPO="$wt" VERIF_OUT="$out" "$V/check" "$id" "${MUT_TIER:-quick}" > "$out/$id.txt" 2>&1
   rc=$?
   case $rc in
-    1) echo "$name $id DETECTED: $(grep -m1 -A1 '^VIOLATION' "$out/$id.txt" | tail -1 | cut -c1-260)";;
+    1) echo "$name $id DETECTED: $(grep -a -m1 -A1 '^VIOLATION' "$out/$id.txt" | tail -1 | cut -c1-260)";;
     0) echo "$name $id MISSED";;
     *) echo "$name $id ERROR rc=$rc: $(tail -3 "$out/$id.txt" | cut -c1-300)";;
   esac
